@@ -19,9 +19,9 @@ from fractions import Fraction as Fr
 import numpy as np
 
 PROP = 'C10'
-TARGETS = ['T13o', 'T13e', 'T13w', 'TC10f']
+TARGETS = ['T13o', 'T13e', 'T13w', 'TC10f', 'TC10g']
 LEAN_MODULES = ['HdVerif.Props.C10']
-MODEL_MODULES = ['HdVerif.Model.Affine']
+MODEL_MODULES = ['HdVerif.Model.Affine', 'HdVerif.Model.AffineCalls', 'HdVerif.Model.AffineImage']
 NAMESPACE = 'HdVerif.C10'
 DRIVER = 'Drivers/C10.lean'
 RULE = ('one case = one call of a constructor / transformer / helper on a generated plane (position dyadic, orientation '
@@ -160,6 +160,8 @@ def _fr(s):
 
 def _cmp(impl, model, tol):
     """structural comparison: floats against rational strings with absolute tolerance `tol`."""
+    if model is None or impl is None:
+        return model is None and impl is None
     if isinstance(model, dict):
         return isinstance(impl, dict) and set(impl) == set(model) and all(_cmp(impl[k], model[k], tol) for k in model)
     if isinstance(model, list):
@@ -518,6 +520,209 @@ def _transformer_cases(ctx, reqs, pend):
         pend.append(({'fn': 'np.around', 'x': x}, ('ok', int(np.around(x))), 0))
         if int(np.around(x)) != round(x):
             ctx.fail({'fn': 'round', 'x': x}, 'np.around and round differ', site='round')
+
+
+# ------------------------------------------------------------------ 2b. __call__ on arrays of every shape, dtype and memory layout
+def _layout(r, arr):
+    """the same array in another memory layout: C / Fortran order, a strided view, a negative-stride view, read-only"""
+    k = r.randrange(5)
+    if k == 1:
+        return np.asfortranarray(arr), 'fortran'
+    if k == 2 and arr.ndim == 2:
+        big = np.zeros((arr.shape[0], 2 * arr.shape[1]), dtype=arr.dtype)
+        big[:, ::2] = arr
+        return big[:, ::2], 'strided'
+    if k == 3 and arr.ndim >= 1:
+        return arr[::-1].copy()[::-1], 'negative_stride'
+    if k == 4:
+        a = arr.copy()
+        a.flags.writeable = False
+        return a, 'read_only'
+    return arr, 'c'
+
+
+def _near_tie(tr, kw, cls, rows):
+    """is an un-rounded output of the rounding transformer within 1e-3 of a tie?"""
+    from highdicom import spatial as sp
+    raw = (sp.ReferenceToPixelTransformer(**dict(kw, round_output=False)) if cls == 'r2p'
+           else sp.PixelToPixelTransformer(**dict(kw, round_output=False)))(rows)
+    return bool(np.any(np.abs(np.abs(raw % 1.0) - 0.5) < 1e-3))
+
+
+def _batch_cases(ctx, reqs, pend):
+    """every `__call__` on arrays: (n, k) with n = 0, 1, 2, 5, 9 in every memory layout, and the malformed ones (wrong k, 0-d, 1-d,
+    3-d, non-integer dtype where integers are demanded); flags round_output / drop_slice_index / drop_slice_coord in every
+    combination; points ON, slightly inside and slightly outside the half-slice limit.  Oracle: a batch is its points one by one,
+    n rows in = n rows out, refusal exactly for the malformed shapes and - under the drop flag - exactly when one point lies more
+    than half a slice off the plane (from the construction).  Model: the interpreter of the regenerated call specs (TC10g)."""
+    from highdicom import spatial as sp
+    n = ctx.n(700, 2500)
+    classes = ['p2r', 'r2p', 'p2p', 'i2r', 'r2i', 'i2i']
+    for i in range(n):
+        r = ctx.rng('batch', i)
+        cls = classes[i % 6]
+        pl = _plane(r)
+        sbs = _spacing(r)
+        row, col = np.array(pl['ori'][:3]), np.array(pl['ori'][3:])
+        rnd_f, drop_f = r.random() < 0.5, r.random() < 0.5
+        k = 3 if cls in ('r2p', 'r2i') else 2
+        int_only = cls in ('p2r', 'p2p')
+        margs = {'cls': cls, 'round': rnd_f, 'drop': drop_f}
+        if cls in ('p2p', 'i2i'):
+            du, dv = _dy(r, -40, 40), _dy(r, -40, 40)
+            b = {'pos': [float(x) for x in np.array(pl['pos']) + du * row + dv * col],
+                 'ori': [float(x) for x in col] + [float(x) for x in -row] if r.random() < 0.5 else list(pl['ori']), 'ps': [_spacing(r), _spacing(r)]}
+            kw = dict(image_position_from=pl['pos'], image_orientation_from=pl['ori'], pixel_spacing_from=pl['ps'],
+                      image_position_to=b['pos'], image_orientation_to=b['ori'], pixel_spacing_to=b['ps'])
+            if cls == 'p2p':
+                kw['round_output'] = rnd_f
+            tr = (sp.PixelToPixelTransformer if cls == 'p2p' else sp.ImageToImageTransformer)(**kw)
+            margs.update(pos_f=RL(pl['pos']), ori_f=RL(pl['ori']), ps_f=RL(pl['ps']), pos_t=RL(b['pos']), ori_t=RL(b['ori']), ps_t=RL(b['ps']))
+        else:
+            kw = dict(image_position=pl['pos'], image_orientation=pl['ori'], pixel_spacing=pl['ps'])
+            if cls == 'r2p':
+                kw.update(spacing_between_slices=sbs, round_output=rnd_f, drop_slice_index=drop_f)
+            elif cls == 'r2i':
+                kw.update(spacing_between_slices=sbs, drop_slice_coord=drop_f)
+            tr = {'p2r': sp.PixelToReferenceTransformer, 'r2p': sp.ReferenceToPixelTransformer, 'i2r': sp.ImageToReferenceTransformer,
+                  'r2i': sp.ReferenceToImageTransformer}[cls](**kw)
+            margs.update(pos=RL(pl['pos']), ori=RL(pl['ori']), ps=RL(pl['ps']), sbs=R(sbs))
+        shape_kind = r.choice(['good', 'good', 'good', 'empty', 'one', 'wrong_width', 'wrong_width_empty', 'scalar', 'one_dim', 'three_dim',
+                               'three_dim_wrong', 'float_dtype', 'bool_dtype', 'uint8'])
+        nrows = {'empty': 0, 'wrong_width_empty': 0, 'one': 1}.get(shape_kind, r.choice([1, 2, 5, 9]))
+        zs = []
+        if k == 2:
+            if int_only or shape_kind in ('uint8', 'bool_dtype'):
+                arr = np.array(_pts_int(r, nrows), dtype=np.int64).reshape(nrows, 2)
+                if shape_kind == 'uint8':
+                    arr = np.abs(arr).astype(np.uint8)
+                elif shape_kind == 'bool_dtype':
+                    arr = (arr % 2).astype(bool)
+                elif shape_kind == 'float_dtype':
+                    arr = arr.astype(float)
+                elif r.random() < 0.3:
+                    arr = arr.astype(r.choice([np.int32, np.int16, np.uint16]))
+            else:
+                arr = np.array([[_dy(r, -5, 200, 16), _dy(r, -5, 200, 16)] for _ in range(nrows)], dtype=float).reshape(nrows, 2)
+        else:
+            # reference points built from index-space points whose slice coordinate is chosen around the half-slice limit
+            zs = [r.choice([0.0, 0.0, 0.25, -0.25, 0.49, -0.49, 0.51, -0.51, 0.75, 2.0, -3.0]) if r.random() < 0.45 else 0.0 for _ in range(nrows)]
+            sub = np.array([[_dy(r, -10, 300, 16), _dy(r, -10, 300, 16), z] for z in zs], dtype=float).reshape(nrows, 3)
+            fwd3 = sp.create_affine_matrix_from_attributes(pl['pos'], pl['ori'], pl['ps'], sbs)
+            arr = (fwd3 @ np.vstack([sub.T, np.ones(nrows)]))[:3].T if nrows else np.zeros((0, 3))
+            if shape_kind == 'uint8':
+                arr = np.abs(np.round(arr)).astype(np.uint8)
+                zs = None
+            elif shape_kind == 'bool_dtype':
+                arr = (np.round(arr) % 2).astype(bool)
+                zs = None
+        if shape_kind in ('wrong_width', 'wrong_width_empty'):
+            w = r.choice([kk for kk in (1, 2, 3, 4) if kk != k])
+            arr = np.zeros((nrows, w), dtype=arr.dtype)
+        elif shape_kind == 'scalar':
+            arr = np.array(3, dtype=arr.dtype)
+        elif shape_kind == 'one_dim':
+            arr = np.zeros((k,), dtype=arr.dtype)
+        elif shape_kind == 'three_dim':
+            arr = np.zeros((nrows, k, r.choice([1, 2])), dtype=arr.dtype)
+        elif shape_kind == 'three_dim_wrong':
+            arr = np.zeros((nrows, r.choice([kk for kk in (1, 2, 3, 4) if kk != k]), 2), dtype=arr.dtype)
+        arr, layout = _layout(r, arr)
+        before = arr.copy()
+        st, out = _call(tr, arr)
+        case = {'fn': 'call', 'cls': cls, 'shape': list(arr.shape), 'dtype': str(arr.dtype), 'layout': layout, 'round': rnd_f, 'drop': drop_f,
+                'plane': pl, 'sbs': sbs, 'kind': shape_kind, 'kind_matters': True}
+        ctx.case(sample=case if i % 43 == 0 else None, fn='call', cls=cls, shape_kind=shape_kind, layout=layout, dtype=arr.dtype.kind,
+                 flags=f'round={rnd_f},drop={drop_f}' if cls in ('r2p', 'r2i', 'p2p') else '-', outcome=st if st == 'ok' else out,
+                 nontrivial_key=('call', cls, shape_kind, layout) if st == 'ok' else ('call-refused', cls, shape_kind))
+        if not np.array_equal(arr, before, equal_nan=True):
+            ctx.fail(case, 'the argument array was modified', site='purity')
+        # ---- oracle
+        well = arr.ndim == 2 and arr.shape[1] == k and (not int_only or arr.dtype.kind in 'ui')
+        dropping = drop_f and cls in ('r2p', 'r2i')
+        off_plane = bool(zs) and any(abs(z) > 0.5 for z in zs) if zs is not None else None
+        if not well:
+            if st == 'ok':
+                ctx.fail(case, f'an array of shape {arr.shape} / dtype {arr.dtype} is accepted', site='batch')
+        elif dropping and off_plane:
+            if st == 'ok' or out != 'runtime':
+                ctx.fail(dict(case, slice_coordinates=zs), f'a point more than half a slice off the plane is not refused: {st} {out if st != "ok" else ""}', site='drop_slice_index')
+        elif dropping and off_plane is None:
+            pass
+        else:
+            width_out = {'p2r': 3, 'i2r': 3, 'p2p': 2, 'i2i': 2}.get(cls, 2 if dropping else 3)
+            if st != 'ok':
+                ctx.fail(dict(case, slice_coordinates=zs), f'a well-formed batch is refused: {out}', site='batch')
+            elif out.shape != (arr.shape[0], width_out):
+                ctx.fail(case, f'result of shape {out.shape}', site='batch')
+            else:
+                if (rnd_f and cls in ('r2p', 'p2p')) != (out.dtype.kind == 'i'):
+                    ctx.fail(case, f'result dtype {out.dtype} with round_output={rnd_f}', site='batch')
+                for q in range(arr.shape[0]):
+                    st1, o1 = _call(tr, arr[q:q + 1])
+                    # (floating point: a matrix product over n columns may differ from n products in the last bits; a rounded
+                    # entry may then differ only next to a tie)
+                    eps = 1e-9 * (1 + float(np.abs(out[q]).max())) if out.dtype.kind != 'i' else 0
+                    if st1 != 'ok' or (np.abs(o1[0] - out[q]).max() > eps and not (out.dtype.kind == 'i' and np.abs(o1[0] - out[q]).max() <= 1
+                                                                                    and _near_tie(tr, kw, cls, arr[q:q + 1]))):
+                        ctx.fail(dict(case, row=q), 'a batch differs from its points one by one', site='batch')
+                        break
+        # ---- model
+        batch = {'ndim': int(arr.ndim), 'width': int(arr.shape[1]) if arr.ndim >= 2 else 0, 'int': arr.dtype.kind in 'ui',
+                 'rows': [RL([float(v) for v in rw]) for rw in arr.tolist()] if arr.ndim == 2 else []}
+        reqs.append(('call', dict(margs, batch=batch)))
+        tol = TOL * _scale(pl, [[float(np.abs(arr).max())] if arr.size else [1.0]]) * 1024
+        val = out
+        if st == 'ok' and cls in ('r2p', 'p2p') and rnd_f:
+            # rounded output: compared where the un-rounded value is not near a tie
+            raw = (sp.ReferenceToPixelTransformer(**dict(kw, round_output=False)) if cls == 'r2p'
+                   else sp.PixelToPixelTransformer(**dict(kw, round_output=False)))(arr)
+            if np.any(np.abs(np.abs(raw % 1.0) - 0.5) < 1e-3):
+                val = None
+        if val is None:
+            reqs.pop()
+        else:
+            pend.append((case, (st, val), 0 if (st == 'ok' and out.dtype.kind == 'i') else tol))
+    # ---- the two point helpers on index / coordinate sequences of every length and spelling
+    for i in range(ctx.n(200, 600)):
+        r = ctx.rng('helperB', i)
+        pl = _plane(r)
+        ln = r.choice([2, 2, 2, 1, 3, 0])
+        index = [r.randint(-20, 300) for _ in range(ln)]
+        spelled = r.choice([list, tuple, lambda v: np.array(v, dtype=np.int64), lambda v: [np.int32(x) for x in v]])(index)
+        st, out = _call(sp.map_pixel_into_coordinate_system, spelled, pl['pos'], pl['ori'], pl['ps'])
+        case = {'fn': 'map_pixel_into_coordinate_system', 'index': index, 'plane': pl, 'kind_matters': ln != 0}
+        ctx.case(fn='helper', which='pixel', length=ln, outcome=st if st == 'ok' else out, nontrivial_key=('helperB', ln) if st == 'ok' else None)
+        if (st == 'ok') != (ln == 2):
+            ctx.fail(case, f'index of length {ln}: {st} {out}', site='helper')
+        if st == 'ok':
+            want = sp.PixelToReferenceTransformer(pl['pos'], pl['ori'], pl['ps'])(np.array([index]))[0]
+            if not isinstance(out, tuple) or len(out) != 3 or not np.array_equal(np.array(out), want):
+                ctx.fail(case, {'got': out, 'want': want.tolist()}, site='helper')
+        if ln != 0:      # np.array([[]], dtype=int) has shape (1, 0): the same refusal
+            reqs.append(('mapPixelB', {'index': index, 'pos': RL(pl['pos']), 'ori': RL(pl['ori']), 'ps': RL(pl['ps'])}))
+            pend.append((case, (st, list(out) if st == 'ok' else out), 0 if _exact(pl) else TOL * _scale(pl, [index])))
+        sbs = r.choice([None, _spacing(r)])
+        ln = r.choice([3, 3, 3, 2, 4])
+        sub = [_dy(r, -10, 300, 16), _dy(r, -10, 300, 16), _dy(r, -3, 3, 16)]
+        fwd3 = sp.create_affine_matrix_from_attributes(pl['pos'], pl['ori'], pl['ps'], 1.0 if sbs is None else sbs)
+        coord = [float(x) for x in (fwd3 @ np.array(sub + [1.0]))[:3]]
+        coord = (coord + [1.0])[:ln]
+        args = (pl['pos'], pl['ori'], pl['ps']) + (() if sbs is None else (sbs,))
+        st, out = _call(sp.map_coordinate_into_pixel_matrix, r.choice([list, tuple, np.array])(coord), *args)
+        case = {'fn': 'map_coordinate_into_pixel_matrix', 'coordinate': coord, 'plane': pl, 'sbs': sbs, 'kind_matters': True}
+        ctx.case(fn='helper', which='coordinate', length=ln, default_spacing=sbs is None, outcome=st if st == 'ok' else out,
+                 nontrivial_key=('helperC', ln, sbs is None) if st == 'ok' else None)
+        if (st == 'ok') != (ln == 3):
+            ctx.fail(case, f'coordinate of length {ln}: {st} {out}', site='helper')
+        safe = all(abs(abs(x % 1.0) - 0.5) > 1e-3 for x in sub)
+        if st == 'ok':
+            if not all(isinstance(v, int) for v in out) or (safe and list(out) != [int(np.around(x)) for x in sub]):
+                ctx.fail(case, {'got': out, 'want': [int(np.around(x)) for x in sub]}, site='helper')
+        if safe or st != 'ok':
+            reqs.append(('mapCoordB', {'coordinate': RL(coord), 'pos': RL(pl['pos']), 'ori': RL(pl['ori']), 'ps': RL(pl['ps']),
+                                       'sbs': None if sbs is None else R(sbs)}))
+            pend.append((case, (st, list(out) if st == 'ok' else out), 0))
 
 
 # ------------------------------------------------------------------ 3. pixel-to-pixel / image-to-image
@@ -1049,6 +1254,12 @@ def _dataset_cases(ctx, reqs, pend):
                             ctx.fail(dict(case, cls=cls.__name__, frame=f + 1, frames=nfr, variant=vname),
                                      {'what': "transformer of a frame differs from the frame's own explicit attributes",
                                       'got': t.affine.tolist() if st == 'ok' else t, 'want': want.tolist()}, site='for_image')
+                # the model of _get_spatial_information / for_image: every frame, frame 0 (Python's index -1), one outside, none
+                mtol = TOL * 4096 * (1 + Fr(max(abs(x) for p_ in planes for x in p_['pos'])))
+                dsc = _describe(dv)
+                for fno in list(range(0, nfr + 2)) + [None]:
+                    _for_image_compare(reqs, pend, dict(case, variant=vname), dv, fno, False, mtol, dsc)
+                _for_image_compare(reqs, pend, dict(case, variant=vname), dv, 1, True, mtol, dsc)
                 # two frames of the same image with different planes: pixel-to-pixel is refused unless they are coplanar
                 st, t = _call(sp.PixelToPixelTransformer.for_images, dv, dv, frame_number_from=1, frame_number_to=2)
                 st_w, _w = _call(sp.PixelToPixelTransformer, planes[0]['pos'], planes[0]['ori'], planes[0]['ps'],
@@ -1097,6 +1308,18 @@ def _dataset_cases(ctx, reqs, pend):
                         ctx.fail(dict(case, cls=cls.__name__, frame=f), f'refused: {t}', site='for_image')
                     elif not np.array_equal(t.affine, explicit(cls, pos, pl['ori'], pl['ps'], sbs).affine):
                         ctx.fail(dict(case, cls=cls.__name__, frame=f), 'differs from the transformer built from explicit attributes', site='for_image')
+            # the model of _get_spatial_information / for_image on the same datasets: valid frames, frame 0, outside, none, total
+            mtol = TOL * 4096 * (1 + Fr(max(abs(x) for x in pl['pos'])) + 8 * Fr(abs(sl)))
+            if kind == 'single':
+                for ds1, f1, _p, _s in frames:
+                    for fno in (f1, 1, None, 2, 0):
+                        _for_image_compare(reqs, pend, case, ds1, fno, False, mtol)
+                    _for_image_compare(reqs, pend, case, ds1, None, True, mtol)
+            else:
+                dsc = _describe(frames[0][0])
+                for fno in list(range(0, nfr + 2)) + [None, -1]:
+                    _for_image_compare(reqs, pend, case, frames[0][0], fno, False, mtol, dsc)
+                _for_image_compare(reqs, pend, case, frames[0][0], 1, True, mtol, dsc)
             # the option flags of the inverse transformers are passed through
             ds_f, f_f, pos_f, sbs_f = frames[-1]
             pt = np.array([pos_f]) + 0.25 * row * pl['ps'][1]
@@ -1182,6 +1405,12 @@ def _dataset_cases(ctx, reqs, pend):
                                               'tc': b, 'tr': a}))
                 pend.append((dict(case, fn='TILED_FULL frame position', frame=f + 1),
                              ('ok', {'offsets': [C, Rr], 'position': tf.affine[:3, 3]}), 0 if exact else TOL * _scale(pl)))
+        # the model of _get_spatial_information / iter_tiled_full_frame_data / for_image: every frame, outside, total matrix
+        mtol = TOL * 4096 * (1 + Fr(max(abs(x) for x in pl['pos'])) + (trows + tcols) * 4)
+        dsc = _describe(ds)
+        for fno in list(range(0, len(tiles) + 2)) + [None]:
+            _for_image_compare(reqs, pend, case, ds, fno, False, mtol, dsc)
+        _for_image_compare(reqs, pend, case, ds, None, True, mtol, dsc)
         # pixel-to-pixel between a frame and the total pixel matrix of the same image
         if tiles:
             f = r.randrange(len(tiles))
@@ -1197,11 +1426,72 @@ def _dataset_cases(ctx, reqs, pend):
                     ctx.fail(dict(case, what='frame -> total pixel matrix', frame=f + 1), {'got': got.tolist(), 'want': want.tolist()}, site='frame_vs_total')
 
 
+# ------------------------------------------------------------------ 5.0 datasets as the model sees them
+def _describe(ds):
+    """the attributes `_get_spatial_information` / `iter_tiled_full_frame_data` read, as the record of Model/AffineImage.lean.  The
+    coordinate system and the multi-frame test are taken from the library (not modelled: inputs of the model)."""
+    from highdicom.spatial import get_image_coordinate_system
+    from highdicom._module_utils import is_multiframe_image
+
+    def rl(v):
+        return [R(float(x)) for x in v]
+
+    def groups(item):
+        g = {}
+        if 'PixelMeasuresSequence' in item:
+            pm = item.PixelMeasuresSequence[0]
+            g['measures'] = {'ps': rl(pm.PixelSpacing), 'sbs': R(float(pm.SpacingBetweenSlices)) if 'SpacingBetweenSlices' in pm else None}
+        if 'PlanePositionSlideSequence' in item:
+            pp = item.PlanePositionSlideSequence[0]
+            g['pos_slide'] = rl([pp.XOffsetInSlideCoordinateSystem, pp.YOffsetInSlideCoordinateSystem, pp.ZOffsetInSlideCoordinateSystem])
+        if 'PlanePositionSequence' in item and 'ImagePositionPatient' in item.PlanePositionSequence[0]:
+            g['pos_patient'] = rl(item.PlanePositionSequence[0].ImagePositionPatient)
+        if 'PlaneOrientationSequence' in item:
+            g['ori_patient'] = rl(item.PlaneOrientationSequence[0].ImageOrientationPatient)
+        return g
+    cs = get_image_coordinate_system(ds)
+    d = {'coord': None if cs is None else cs.value.lower(), 'multiframe': bool(is_multiframe_image(ds))}
+    if 'ImagePositionPatient' in ds:
+        d.update(root_pos=rl(ds.ImagePositionPatient), root_ori=rl(ds.ImageOrientationPatient), root_ps=rl(ds.PixelSpacing),
+                 root_sbs=R(float(ds.SpacingBetweenSlices)) if 'SpacingBetweenSlices' in ds else None)
+    if 'SharedFunctionalGroupsSequence' in ds:
+        d['shared'] = groups(ds.SharedFunctionalGroupsSequence[0])
+    if 'PerFrameFunctionalGroupsSequence' in ds:
+        d['per_frame'] = [groups(it) for it in ds.PerFrameFunctionalGroupsSequence]
+    if 'ImageOrientationSlide' in ds:
+        d['ori_slide'] = rl(ds.ImageOrientationSlide)
+    if 'TotalPixelMatrixOriginSequence' in ds:
+        org = ds.TotalPixelMatrixOriginSequence[0]
+        d['total_origin'] = {'x': R(float(org.XOffsetInSlideCoordinateSystem)), 'y': R(float(org.YOffsetInSlideCoordinateSystem)),
+                             'z': R(float(org.ZOffsetInSlideCoordinateSystem)) if 'ZOffsetInSlideCoordinateSystem' in org else None}
+    if ds.get('DimensionOrganizationType', '') == 'TILED_FULL':
+        if str(ds.SOPClassUID) in (SEG_UID, LABELMAP_UID):
+            nch = 1 if ds.SegmentationType == 'LABELMAP' else len(ds.SegmentSequence)
+        else:
+            nch = int(ds.NumberOfOpticalPaths) if 'NumberOfOpticalPaths' in ds else len(ds.OpticalPathSequence)
+        d['tiled_full'] = {'rows': int(ds.Rows), 'cols': int(ds.Columns), 'trows': int(ds.TotalPixelMatrixRows), 'tcols': int(ds.TotalPixelMatrixColumns),
+                           'channels': nch, 'planes': int(ds.TotalPixelMatrixFocalPlanes) if 'TotalPixelMatrixFocalPlanes' in ds else None}
+    return d
+
+
+def _for_image_compare(reqs, pend, case, ds, frame, total, tol, desc=None):
+    """`_get_spatial_information` and the four for_image constructors of the implementation against the model, on one request"""
+    from highdicom import spatial as sp
+    impl = {}
+    st, info = _call(sp._get_spatial_information, ds, frame_number=frame, for_total_pixel_matrix=total)
+    impl['info'] = (st, {'pos': [float(x) for x in info[0]], 'ori': [float(x) for x in info[1]], 'ps': [float(x) for x in info[2]],
+                         'sbs': None if info[3] is None else float(info[3])} if st == 'ok' else info)
+    for name, cls in zip(('p2r', 'r2p', 'i2r', 'r2i'), _tcls()):
+        st, t = _call(cls.for_image, ds, frame_number=frame, for_total_pixel_matrix=total)
+        impl[name] = (st, {'m': t.affine[:3, :3], 't': t.affine[:3, 3]} if st == 'ok' else t)
+    reqs.append(('forImage', {'ds': desc if desc is not None else _describe(ds), 'frame': frame, 'total': total}))
+    pend.append((dict(case, fn='for_image vs model', frame=frame, total=total, multi=True), impl, tol))
+
+
 # ------------------------------------------------------------------ 5a. TILED_FULL images in general form
 SEG_UID = '1.2.840.10008.5.1.4.1.1.66.4'
 LABELMAP_UID = '1.2.840.10008.5.1.4.1.1.66.7'
 WSI_UID = '1.2.840.10008.5.1.4.1.1.77.1.6'
-_MODEL_TILED = False
 TILED_FLAVOURS = ['wsi', 'wsi', 'wsi_nocount', 'seg_binary', 'seg_fractional', 'seg_labelmap']
 
 
@@ -1391,13 +1681,6 @@ def _check_tiled_frames(ctx, case, ds, t, r, frames, site, classes=None):
     return True
 
 
-def _tiled_desc(t):
-    """the TILED_FULL dataset as the model sees it"""
-    return {'x': R(t['x']), 'y': R(t['y']), 'z': None if t['z'] is None else R(t['z']), 'ori': RL(t['ori']), 'ps': RL(t['ps']),
-            'zsp': None if t['zsp'] is None else R(t['zsp']), 'rows': t['tr'], 'cols': t['tc'], 'trows': t['trows'], 'tcols': t['tcols'],
-            'channels': _tiled_counts(t)[2], 'planes': t['npl']}
-
-
 def _tiled_multi_case(ctx, reqs, pend, r, pl, case, geo):
     import io
     import pydicom
@@ -1433,15 +1716,15 @@ def _tiled_multi_case(ctx, reqs, pend, r, pl, case, geo):
         st, tf = _call(sp.PixelToReferenceTransformer.for_image, ds, frame_number=bad_f)
         if st == 'ok':
             ctx.fail(dict(case, frame=bad_f, frames=n), 'a frame number outside the image is accepted', site='for_image')
-    # the model of _get_spatial_information / iter_tiled_full_frame_data on the same frames (and one outside)
+    # the model of _get_spatial_information / iter_tiled_full_frame_data / for_image on the same frames, one outside, frame 0, the
+    # total pixel matrix and a missing frame number
     exact = t['cls'] == 'axis' and variant == 'memory' and all(Fr(s).denominator <= 1024 for s in t['ps'])
-    tol = 0 if exact else TOL * 64 * (1 + Fr(max(abs(t['x']), abs(t['y']), abs(t['z'] or 0.0))) + (t['trows'] + t['tcols']) * 4)
-    for f in (frames[:6] + [n]) if _MODEL_TILED else []:
-        st, tf = _call(sp.PixelToReferenceTransformer.for_image, ds, frame_number=f + 1)
-        st2, t2 = _call(sp.ReferenceToPixelTransformer.for_image, ds, frame_number=f + 1, round_output=False)
-        reqs.append(('tiledFrame', dict(_tiled_desc(t), frame=f + 1)))
-        impl = (st, {'position': tf.affine[:3, 3], 'inverse': {'m': t2.affine[:3, :3], 't': t2.affine[:3, 3]}} if st == 'ok' and st2 == 'ok' else tf)
-        pend.append((dict(case, fn='for_image(TILED_FULL frame)', frame=f + 1), impl, tol if f < n else 0))
+    tol = TOL * 4096 * (1 + Fr(max(abs(t['x']), abs(t['y']), abs(t['z'] or 0.0))) + (t['trows'] + t['tcols']) * 4)
+    desc = _describe(ds)
+    for f in frames[:5] + [n, -1]:
+        _for_image_compare(reqs, pend, case, ds, f + 1, False, tol, desc)
+    _for_image_compare(reqs, pend, case, ds, None, True, tol, desc)
+    _for_image_compare(reqs, pend, case, ds, None, False, tol, desc)
 
 
 # ------------------------------------------------------------------ 5b. histories: transformers depend only on the CURRENT attributes
@@ -1679,10 +1962,25 @@ def _compare(ctx, reqs, pend):
         if 'proto_err' in ans:
             ctx.disagree(layer, case, impl, ans, 'model protocol error')
             continue
+        if case.get('multi'):
+            # several results of one request: {name: (status, value)} against {name: value | {'error': kind}}
+            model = ans.get('ok', {})
+            for name, (st, val) in impl.items():
+                m = model.get(name)
+                m_ok = not (isinstance(m, dict) and 'error' in m)
+                if (st == 'ok') != m_ok:
+                    ctx.disagree(layer, dict(case, part=name), (st, val), m, 'ok-vs-error')
+                elif st == 'ok' and not _cmp(val, m, tol):
+                    ctx.disagree(layer, dict(case, part=name), (st, val), m, 'value')
+                elif st != 'ok' and m.get('error') != val:
+                    ctx.disagree(layer, dict(case, part=name), (st, val), m, 'error kind')
+            continue
         if (impl[0] == 'ok') != ('ok' in ans):
             ctx.disagree(layer, case, impl, ans, 'ok-vs-error')
             continue
         if impl[0] != 'ok':
+            if case.get('kind_matters') and ans.get('err') != impl[1]:
+                ctx.disagree(layer, case, impl, ans, 'error kind')
             continue
         model = ans['ok']
         if case.get('partial'):
@@ -1696,6 +1994,7 @@ def run(ctx):
     reqs, pend = [], []
     _affine_cases(ctx, reqs, pend)
     _transformer_cases(ctx, reqs, pend)
+    _batch_cases(ctx, reqs, pend)
     _pair_cases(ctx, reqs, pend)
     _letters_cases(ctx, reqs, pend)
     _components_cases(ctx, reqs, pend)
@@ -1710,7 +2009,7 @@ def replay(ctx, case):
     sub = type(ctx)(ctx.prop, ctx.tier, ctx.seed, 1, ctx.driver)
     sub.model_available = False
     fn = case.get('fn', '') if isinstance(case, dict) else ''
-    streams = [_affine_cases, _transformer_cases, _pair_cases, _letters_cases, _components_cases, _dataset_cases]
+    streams = [_affine_cases, _transformer_cases, _batch_cases, _pair_cases, _letters_cases, _components_cases, _dataset_cases]
     for s in streams:
         s(sub, [], [])
     _volume_attr_cases(sub)
